@@ -1,6 +1,207 @@
-import Driver.Common
-namespace Rtp.Kinds.Av1
-open Rtp Rtp.Proto
+/-
+  Driver/Kinds/Av1.lean — case kinds of the AV1 group (C13, C15 AV1 half, C08/C09 AV1 parts).
 
-def handlers : List (String × Handler) := []
+  token formats (mirrored by harness/kinds_av1.go)
+    hdr     <type> (none | some <t> <s> <r>) <hasSize> <reserved1>
+    obu     hdr <payload bytes>
+    view    <z> <y> <w> <n> <list bytes>
+-/
+import Driver.Common
+import Rtp.Model.AV1Pay
+import Rtp.Model.AV1Depack
+import Rtp.Model.AV1Packet
+import Rtp.Pred.C08
+import Rtp.Pred.C09
+import Rtp.Pred.C13
+import Rtp.Pred.C15Av1
+import Rtp.Pred.C09Av1
+namespace Rtp.Kinds.Av1
+open Rtp Rtp.Proto Rtp.Model Rtp.Model.AV1 Rtp.Spec.Av1Rtp
+
+/-! ### readers -/
+
+def rdHdr : Rd ObuHeader := do
+  let t ← Rd.u8
+  let e ← Rd.opt (do let a ← Rd.u8; let b ← Rd.u8; let c ← Rd.u8
+                     pure ({ temporalID := a, spatialID := b, reserved3 := c } : ExtHdr))
+  let s ← Rd.bool; let r ← Rd.bool
+  pure { type := t, ext := e, hasSize := s, reserved1 := r }
+
+def rdObu : Rd Obu := do let h ← rdHdr; let p ← Rd.bytes; pure { hdr := h, payload := p }
+
+def rdView : Rd Pred.C13.PktView := do
+  let z ← Rd.bool; let y ← Rd.bool; let w ← Rd.nat; let n ← Rd.bool; let es ← Rd.list Rd.bytes
+  pure { z := z, y := y, w := w, n := n, elems := es }
+
+/-! ### c13.rt -/
+
+structure RtIn where
+  mtu : UInt16
+  obus : List Obu
+  stream : Bytes
+
+/-- `<mtu> <list obu> <stream>`; the stream the harness built with its own serialiser must be the
+    specification's serialisation of the OBU list (otherwise the case is a harness error) -/
+def rdRtIn : Rd RtIn := do
+  let m ← Rd.u16; let os ← Rd.list rdObu; let s ← Rd.bytes
+  if serialise os == s then pure { mtu := m, obus := os, stream := s } else Rd.fail
+
+def rdRtObs : Rd Pred.C13.RtObs := do
+  let t ← Rd.tok
+  match t with
+  | "panic" => pure { panicked := true, payloads := [], views := [], frames := [], depack := [] }
+  | "ok" => do
+    let ps ← Rd.list Rd.bytes
+    let vs ← Rd.list (Rd.resC rdView)
+    let fs ← Rd.list (Rd.list Rd.bytes)
+    let ds ← Rd.list (Rd.resC Rd.bytes)
+    pure { panicked := false, payloads := ps, views := vs, frames := fs, depack := ds }
+  | _ => Rd.fail
+
+/-- a fresh AV1Packet on one payload -/
+def viewOf (p : Bytes) : Res Pred.C13.PktView :=
+  match pktUnmarshal {} (some p) with
+  | (.ok _, st) => .ok { z := st.z, y := st.y, w := st.w.toNat, n := st.n, elems := st.elems.getD [] }
+  | (.err _, _) => .err .other
+  | (.panic, _) => .panic
+
+/-- one frame.AV1 assembler over a list of payloads, a fresh AV1Packet for each -/
+def framesOf : Bytes → List Bytes → List (List Bytes)
+  | _, [] => []
+  | buf, p :: ps =>
+    match pktUnmarshal {} (some p) with
+    | (.ok _, st) =>
+      let r := readFrames buf st.z st.y (st.elems.getD [])
+      r.1 :: framesOf r.2 ps
+    | _ => [] :: framesOf buf ps
+
+def rtModel (i : RtIn) : Pred.C13.RtObs :=
+  let ps := AV1.payload i.mtu i.stream
+  { panicked := false, payloads := ps, views := ps.map viewOf, frames := framesOf [] ps,
+    depack := (depFeed {} ps).1.map Res.coarse }
+
+def rt : Handler :=
+  mkHandler rdRtIn rdRtObs rtModel
+    (fun i o => Pred.C13.rt i.mtu.toNat i.obus o)
+    (fun i => Pred.C13.rtWF i.mtu.toNat i.obus)
+
+/-! ### c13.leb, c13.lebrd -/
+
+def rdRead : Rd (Option (UInt64 × Nat)) := Rd.opt (do let v ← Rd.u64; let k ← Rd.nat; pure (v, k))
+
+def leb : Handler :=
+  mkHandler (do let n ← Rd.u64; let t ← Rd.bytes; pure (n, t))
+    (do let w ← Rd.bytes; let r ← rdRead; pure ({ written := w, read := r } : Pred.C13.LebObs))
+    (fun (n, t) => { written := writeLeb n.toNat, read := readLebGo (writeLeb n.toNat ++ t) })
+    (fun (n, _) o => Pred.C13.leb n o)
+    (fun (n, _) => decide (n.toNat < 2 ^ 32))
+
+/-- ReadLeb128 on arbitrary bytes: correspondence with `readLebGo` only -/
+def lebrd : Handler :=
+  mkHandler Rd.bytes rdRead (fun b => readLebGo b) (fun _ _ => true)
+
+/-! ### c13.obuhdr, c13.obumar -/
+
+def rdResHdr : Rd (Res ObuHeader) := Rd.resC rdHdr
+
+def hdrModel (bs : Bytes) : Pred.C13.HdrObs :=
+  match parseObuHeader bs with
+  | .ok h => { parsed := .ok h, size := h.size, bytes := h.marshal, reparsed := (parseObuHeader h.marshal).coarse }
+  | r => { parsed := r.coarse, size := 0, bytes := [], reparsed := .err .other }
+
+def obuhdr : Handler :=
+  mkHandler Rd.bytes
+    (do let p ← rdResHdr; let s ← Rd.nat; let b ← Rd.bytes; let r ← rdResHdr
+        pure ({ parsed := p, size := s, bytes := b, reparsed := r } : Pred.C13.HdrObs))
+    hdrModel (fun bs o => Pred.C13.hdr bs o)
+
+def obumar : Handler :=
+  mkHandler rdHdr
+    (do let b ← Rd.bytes; let s ← Rd.nat; let r ← rdResHdr
+        pure ({ bytes := b, size := s, reparsed := r } : Pred.C13.MarObs))
+    (fun h => { bytes := h.marshal, size := h.size, reparsed := (parseObuHeader h.marshal).coarse })
+    (fun h o => Pred.C13.mar h o)
+    (fun h => hdrWF h)
+
+/-! ### c15.av1 -/
+
+def resync : Handler :=
+  mkHandler (do let pre ← Rd.list Rd.obytes; let fr ← Rd.list Rd.bytes; pure (pre, fr))
+    (do let u ← Rd.list (Rd.resC Rd.bytes); let f ← Rd.list (Rd.resC Rd.bytes)
+        pure ({ used := u, fresh := f } : Pred.C15Av1.Obs))
+    (fun (pre, fr) =>
+      let st := (depFeed {} (pre.map (·.getD []))).2
+      { used := (depFeed st fr).1.map Res.coarse, fresh := (depFeed {} fr).1.map Res.coarse })
+    (fun (_, fr) o => Pred.C15Av1.resync fr o)
+    (fun (_, fr) => Pred.C15Av1.frameStarts fr)
+
+/-! ### c08.av1 -/
+
+def c08 : Handler :=
+  mkHandler rdCalls rdPayObsList
+    (fun calls => calls.map (fun (m, i) => Pred.PayObs.ofFrags (AV1.payload m (i.getD []))))
+    (fun calls os => Pred.C08.histOk false calls os)
+
+/-! ### c09.av1 -/
+
+structure Md where
+  z : Bool
+  y : Bool
+  n : Bool
+  deriving DecidableEq, Repr, Inhabited
+
+def rdDepObs : Rd (Pred.C09.DepObs Md) := do
+  let r ← Rd.resC Rd.bytes
+  let z ← Rd.bool; let y ← Rd.bool; let n ← Rd.bool
+  let h ← Rd.bool; let t0 ← Rd.bool; let t1 ← Rd.bool
+  let ap ← Rd.bool; let fs ← Rd.bool; let ts ← Rd.bool
+  pure { res := r, md := { z := z, y := y, n := n }, head := h, tail0 := t0, tail1 := t1,
+         auxPanic := ap, freshSame := fs, twinSame := ts }
+
+def depObsOf : DSt → List (Option Bytes) → List (Pred.C09.DepObs Md)
+  | _, [] => []
+  | d, p :: ps =>
+    let b := p.getD []
+    let r := depUnmarshal d b
+    let f := depUnmarshal {} b
+    { res := r.1.coarse, md := { z := r.2.z, y := r.2.y, n := r.2.n },
+      head := depIsPartitionHead b, tail0 := depIsPartitionTail false b,
+      tail1 := depIsPartitionTail true b, auxPanic := false,
+      freshSame := r.1.coarse == f.1.coarse && r.2.z == f.2.z && r.2.y == f.2.y && r.2.n == f.2.n,
+      twinSame := true } :: depObsOf r.2 ps
+
+def c09 : Handler :=
+  mkHandler (Rd.list Rd.obytes) (Rd.list rdDepObs) (depObsOf {})
+    (fun _ os => Pred.C09.histOk false os)
+
+/-! ### c09.av1packet -/
+
+def rdPktCall : Rd Pred.C09Av1.PktCall := do
+  let r ← Rd.resC Rd.bytes
+  let z ← Rd.bool; let y ← Rd.bool; let w ← Rd.nat; let n ← Rd.bool
+  let es ← Rd.list Rd.bytes
+  let fr ← Rd.resC (Rd.list Rd.bytes)
+  let ts ← Rd.bool
+  pure { res := r, z := z, y := y, w := w, n := n, elems := es, frames := fr, twinSame := ts }
+
+def pktCallsOf (reuse : Bool) : PktSt → Bytes → List (Option Bytes) → List Pred.C09Av1.PktCall
+  | _, _, [] => []
+  | st, buf, p :: ps =>
+    let st0 := if reuse then st else {}
+    let r := pktUnmarshal st0 p
+    let fr : List Bytes × Bytes :=
+      if r.1.isOk then readFrames buf r.2.z r.2.y (r.2.elems.getD []) else ([], buf)
+    { res := r.1.coarse, z := r.2.z, y := r.2.y, w := r.2.w.toNat, n := r.2.n,
+      elems := r.2.elems.getD [], frames := .ok fr.1, twinSame := true } ::
+      pktCallsOf reuse r.2 fr.2 ps
+
+def c09pkt : Handler :=
+  mkHandler (do let r ← Rd.bool; let ps ← Rd.list Rd.obytes; pure (r, ps)) (Rd.list rdPktCall)
+    (fun (r, ps) => pktCallsOf r {} [] ps)
+    (fun _ os => Pred.C09Av1.histOk os)
+
+def handlers : List (String × Handler) :=
+  [("c13.rt", rt), ("c13.leb", leb), ("c13.lebrd", lebrd), ("c13.obuhdr", obuhdr),
+   ("c13.obumar", obumar), ("c15.av1", resync), ("c08.av1", c08), ("c09.av1", c09),
+   ("c09.av1packet", c09pkt)]
 end Rtp.Kinds.Av1
